@@ -48,7 +48,8 @@ REQUIRED_PROBES = ['t==begin', 't==end-1', 't==end'] + \
      'field_flip_end', 'field_flip_can', 'field_flip_sig', 'step_between_reads',
      'replay_after_expiry', 'cross_lock_witness', 'cert_roundtrip',
      'honest_accept_single', 'honest_accept_chain', 'threshold_per_call',
-     'second_hierarchy', 'foreign_witness_verified_under_own_root_first']
+     'second_hierarchy', 'foreign_witness_verified_under_own_root_first',
+     'default_timestamp']
 NAMES = ['K', 'Kp'] + ['D%d' % i for i in range(1, 7)] + ['F%d' % i for i in range(1, 7)]
 FIELD_RANGE = {'key': (0, 32), 'begin': (32, 36), 'end': (36, 40), 'can': (40, 41),
                'sig': (41, 105)}
@@ -116,7 +117,7 @@ def gen_step(rng, cell, clocks, vname, at_us, thr, fault_free):
                       'can': True if j < ln - 1 else rng.chance(1, 2)})
     step = {'at_us': at_us, 'validator': vname, 'lock': lock, 'witness': lock,
             'root': root, 'via': rng.choice(['global', 'global', 'additional']),
-            'gthr': rng.choice([60, 0, 1, 10 ** 6]),
+            'gthr': rng.choice([60, 0, 1, 10 ** 6]), 'default_t': rng.chance(1, 8),
             't': t, 'thr': thr, 'chain': chain, 'signer': '%s%d' % (pre, ln),
             'allowed': rng.choice(['00', '00', '01', '03']), 'flag': '00',
             'sigfields': {'sigfield%d' % k: rng.bytes(rng.choice([1, 16, 64])).hex()
@@ -347,6 +348,7 @@ def execute(plan, run):
             w = T.Script.from_src(src)
         lock = real('make_delegate_key_lock', T.make_delegate_key_lock if step['lock'] == 'single'
                     else T.make_delegate_key_chain_lock, root_pk, step['allowed'])
+        cache_in = dict(sf) if step.get('default_t') else {**sf, 'timestamp': step['t']}
         CLOCK.latency_us = kn['latency_us']
         CLOCK.begin_call(step['validator'], step['faults'])
         try:
@@ -356,7 +358,7 @@ def execute(plan, run):
                 # ... while the process-wide default says something else
                 F.flags['ts_threshold'] = step.get('gthr', 60)
                 try:
-                    _, stk2, _ = F.run_script(w.bytes + lock.bytes, {**sf, 'timestamp': step['t']},
+                    _, stk2, _ = F.run_script(w.bytes + lock.bytes, cache_in,
                                               additional_flags={'ts_threshold': step['thr']})
                     r = stk2.list() == [b'\xff']
                 except LIB_ERRORS:
@@ -364,13 +366,17 @@ def execute(plan, run):
             else:
                 F.flags['ts_threshold'] = step['thr']
                 try:
-                    r = F.run_auth_scripts([w, lock], {**sf, 'timestamp': step['t']})
+                    r = F.run_auth_scripts([w, lock], cache_in)
                 except BaseException as e:      # noqa
                     run.aux_auth_raised += 1
                     r = 'raised_' + type(e).__name__
         finally:
             reads = CLOCK.end_call()
         obs = ACCEPT if r is True else REJECT if r is False else 'BAD:' + str(r)
+        if step.get('default_t'):
+            # no timestamp supplied: the execution timestamp is the validator's clock
+            run.probe('default_timestamp')
+            step = dict(step, t=int(reads[0]) if reads else 0)
         t = step['t']
         mdl, why = model(step['lock'], items, root_pk, t, sf, int(step['allowed'], 16),
                          reads, step['thr'])
